@@ -64,9 +64,12 @@ def unit(pid, battery_name, args, prefix=(), max_depth=None):
             _concretize(ctx)
             orc = B.Oracle(objs, props, table)
             # other live, used contexts (same labels / other labels) must not disturb this one
+            late = concepts.Context(objs, props, [tuple(r) for r in table])   # created before, used after the decoys
             keep = B.decoys(concepts, objs, props, table, battery if n * m <= 16 else None)   # noqa: F841
-            fails = battery(ctx, orc)
-            out['queries'] += 1
+            fails = [f'(context created before, used after other contexts over the same labels) {f}'
+                     for f in battery(late, orc)]
+            fails += battery(ctx, orc)
+            out['queries'] += 2
             if fails:
                 what = '; '.join(fails[:3])
         except core.Inconclusive as e:
